@@ -111,6 +111,26 @@ def run(ctx):
                     ctx.violation(key % "batch-vs-singles", "%s: batch of %d (members %s): row %d is %s, the member alone gives %s" % (
                         name, B, list(pi), j, out[j].reshape(-1).tolist()[:10] if tuple(out.shape) == tuple(exp.shape) else "shape %s" % (tuple(out.shape),), exp[j].reshape(-1).tolist()[:10]), dict(rep, batch=list(pi)))
                     return
+        # the same members held in other dtypes (binary-valued inputs only): same answer on two passes, input left alone
+        if exact and all(set(it.reshape(-1).tolist()) <= {0.0, 1.0} for it in items):
+            for dt in (torch.int32, torch.int64, torch.float64):
+                xin = torch.stack(items[: min(4, len(items))]).to(dt)
+                x0 = xin.clone()
+                try:
+                    o1 = quiet(f, xin, **kw)
+                    o2 = quiet(f, xin, **kw)
+                except Exception:
+                    ctx.count("layouts-rejected")
+                    continue
+                ctx.count("dtype-variants")
+                exp = torch.stack([singles[i] for i in range(xin.shape[0])])
+                if not torch.equal(xin, x0):
+                    ctx.violation(key % "input-modified", "%s modifies its %s input tensor" % (name, str(dt).split(".")[1]), dict(rep, dtype=str(dt)))
+                    break
+                if not same(o1, exp, True) or not same(o2, exp, True):
+                    ctx.violation(key % "dtype-or-repeat", "%s on %s copies of the same members answers differently from float32 (first pass equal: %s, second pass equal: %s)" % (
+                        name, str(dt).split(".")[1], same(o1, exp, True), same(o2, exp, True)), dict(rep, dtype=str(dt)))
+                    break
         # (B1, B2, n)
         if nested and len(items) >= 4:
             x = torch.stack([torch.stack([items[0], items[1]]), torch.stack([items[2], items[3]])])
